@@ -28,6 +28,11 @@ BEHAVIOURS = {
     "late-unsupported": "{ RdV = RsV; EA = RtV + siV; while (RsV) { RdV = 1; } }",
     "type-error": "{ const int32_t c = 1; RdV = RsV + siV; c = 2; }",
     "unknown-call": "{ RdV = RsV + clz32(RtV); RdV = no_such_function(RsV); }",
+    # failures while a value-producing operation is still waiting for its consumer
+    "fail-pending-call": "{ RdV = clz32(RsV) + no_such_function(RtV); }",
+    "fail-pending-postfix": "{ int32_t i = 0; RdV = i++ + no_such_function(RtV); }",
+    "fail-pending-stmtexpr": "{ RdV = ({ RxV = RsV; RxV; }) + no_such_function(RtV); }",
+    "fail-pending-imm": "{ RdV = siV + no_such_function(uiV); }",
 }
 SUB = ("c14_twice", "int32_t", ["int32_t x"], "{ int32_t t = x; t++; return t + x; }")
 SUBCALL = "{ RdV = c14_twice(RsV) + c14_twice(RtV); }"
